@@ -98,6 +98,30 @@ DECLARE_CONVERSIONS(PIP_Decision_Node, PIP_Decision_Node)
 
 DECLARE_CONVERSIONS(PIP_Solution_Node, PIP_Solution_Node)
 
+/*! \brief
+  Moves the two components of \p r into two newly allocated objects,
+  whose ownership is passed to the caller; nothing is leaked if the
+  second allocation fails.
+*/
+template <typename PSET, typename PS>
+inline void
+release_pair(std::pair<PSET, PS>& r, PSET*& p_first, PS*& p_second) {
+  PSET* const r1 = new PSET(0, EMPTY);
+  PS* r2;
+  try {
+    r2 = new PS(0, EMPTY);
+  }
+  catch (...) {
+    delete r1;
+    throw;
+  }
+  // Swapping cannot throw.
+  r1->m_swap(r.first);
+  r2->m_swap(r.second);
+  p_first = r1;
+  p_second = r2;
+}
+
 inline Relation_Symbol
 relation_symbol(enum ppl_enum_Constraint_Type t) {
   switch (t) {
